@@ -11,7 +11,7 @@
 From EsVerif.Common Require Import Base Bytes.
 From Coq.Strings Require Import Byte.
 From Coq.Strings Require String.
-From EsVerif.C07 Require Import Model Spec Basics Proofs CmpProofs.
+From EsVerif.C07 Require Import Model Spec Basics Proofs CmpProofs Skel Gen Tie.
 
 (* extract_fields: original order filtered by the given names; Err on a missing name in strict
    mode or when no field would be kept *)
@@ -156,10 +156,47 @@ Theorem C07_scope_deciders_sound :
   /\ (forall a1 a2, comparable_b a1 a2 = true -> comparable a1 a2).
 Proof. exact scope_deciders_sound. Qed.
 
+(* Tie to the source.  Gen.v is regenerated on every run from esutil/numpy_util.py of the tree
+   under check (harness/props/c07_translate.py, fail-closed): the class tuples of the isinstance
+   dispatches, the operator of every guard, `in`/`not in` of the filter loops, the allocator and
+   the attribute that dimensions the output, keyword defaults, exception classes.  The functions
+   of Model.v, about which everything above is proved, ARE the skeletons of Skel.v at the
+   regenerated values. *)
+Theorem C07_source_parameters :
+  (forall a k s, extract_fields_g extract_forms extract_keep_if_in extract_empty_guard extract_dims a k s
+                 = extract_fields a k s)
+  /\ (forall a k, remove_fields_g remove_forms remove_keep_if_in remove_empty_guard remove_dims a k
+                  = remove_fields a k)
+  /\ (forall a k s, reorder_fields_g reorder_forms reorder_dims a k s = reorder_fields a k s)
+  /\ (forall a add dv, add_fields_g add_defaults_forms add_defaults_guard add_dims a add dv = add_fields a add dv)
+  /\ (forall arrs, combine_fields_g combine_none_guard combine_one_guard combine_size_guard combine_dims arrs
+                   = combine_fields arrs)
+  /\ (forall a1 a2, copy_fields_g copy_size_guard a1 a2 = copy_fields a1 a2)
+  /\ (forall a n v, copy_fields_by_name_g cfbn_names_forms cfbn_vals_forms cfbn_len_guard a n v
+                    = copy_fields_by_name a n v)
+  /\ (forall a flds, split_names_g split_forms a flds = Some (split_names a flds)).
+Proof. exact source_parameters. Qed.
+
+(* every output array is created by np.zeros (new fields start zero-filled) with the input's shape *)
+Theorem C07_source_allocation :
+  (extract_alloc, remove_alloc, add_alloc, reorder_alloc, combine_alloc) = (AZeros, AZeros, AZeros, AZeros, AZeros)
+  /\ (extract_dims, remove_dims, add_dims, reorder_dims, combine_dims) = (UseShape, UseShape, UseShape, UseShape, UseShape).
+Proof. exact tie_allocation. Qed.
+
 (* Non-vacuity: a 2-d array with a float, a big-endian sub-array and a bytes field meets the
    hypotheses, and the operations compute the documented results on it. *)
 Import String.StringSyntax.
 Local Open Scope string_scope.
+
+(* strict mode is the default; every raise statement of the nine functions raises ValueError *)
+Theorem C07_source_defaults_and_raises :
+  (extract_strict_default = true /\ reorder_strict_default = true /\ compare_ignore_missing_default = true
+   /\ split_getnames_default = false)
+  /\ Forall (fun c => c = "ValueError")
+            (raises_combine_fields ++ raises_copy_fields ++ raises_extract_fields ++ raises_remove_fields
+             ++ raises_add_fields ++ raises_reorder_fields ++ raises_copy_fields_by_name ++ raises_split_fields
+             ++ raises_compare_arrays)%list.
+Proof. exact (conj tie_defaults tie_raises). Qed.
 
 Definition ex_a : sarray :=
   mkA [2; 1]
